@@ -1593,9 +1593,18 @@ def _np_transpose(a, axes=None):
     return a.transpose(*axes) if axes is not None else a.T
 
 
-def _np_allany(a, f, **kw):
+def _np_allany(a, f, axis=None, **kw):
     if kw:
         raise AnalysisError("np.all / np.any with keywords is not modelled")
+    if axis is not None:
+        arr = XArray.from_nested(a)
+        if not all(isinstance(v, bool) for v in arr.data):
+            raise AnalysisError("np.all / np.any of values that are not decided booleans")
+        ax = int(axis) % arr.ndim
+        moved = arr.transpose(*([i for i in range(arr.ndim) if i != ax] + [ax]))
+        n = arr.shape[ax]
+        flat = list(moved.data)
+        return XArray(moved.shape[:-1], [f(flat[k * n:(k + 1) * n]) for k in range(len(flat) // n if n else 0)])
     if isinstance(a, bool):
         return a
     vals = list(XArray.from_nested(a).data) if isinstance(a, (XArray, list, tuple)) else [a]
